@@ -183,7 +183,7 @@ func ruleR10() *Rule {
 	return &Rule{
 		ID:    "R10",
 		Title: "RESET-COMPLETE: every field of the pooled builder structs is re-initialised; truncated slices are not re-extended over stale elements",
-		Props: []string{"C10", "C02"},
+		Props: []string{"C10", "C02", "C05"},
 		Floor: floorFor("R10"),
 		Run: func(c *RuleCtx) {
 			p := c.p
